@@ -279,7 +279,7 @@ InResOK(h, I, e, D) ==
     [] e.op = "stats"     -> InStatsOK(h, I, e, D)
     [] e.op = "verify"    -> InVerifyOK(I, e, D)
     [] e.op = "corrupt"   -> e.res \in {"ok", "skip"}
-    [] e.op = "raw"       -> e.res = "skip" \/ (e.res = "ok" /\ InRawOK(e))
+    [] e.op = "raw"       -> e.res = "skip" \/ (e.res = "ok" /\ (e.p \in I.dmg \/ InRawOK(e)))    \* a damaged record is not judged
     [] OTHER              -> FALSE
 
 \* the read-back (has_* of every payload, the index listing) against the state J after the event
